@@ -221,6 +221,10 @@ class Live(object):
             return 'err'
         return 'other:' + ' || '.join(out)
 
+    def defaults_dump(self):
+        dp = self.conf.supybot.commands.defaultPlugins
+        return sorted((n, c()) for n, c in dp._children.items() if n != 'importantPlugins')
+
     def store_dump(self):
         d = self.cb.Commands._disabled.d
         ents = sorted((self.cb.canonicalName(k),) + self.entry(d[k]) for k in list(d.keys()))
@@ -680,7 +684,7 @@ def explore(live, r, n_worlds, per_world, corpus=()):
             if any(isinstance(x, list) for x in tokens): tags.append('nested')
             if res['calls'] and any(c[0] == 'VtOrderC' for c in res['calls']): tags.append('threaded')
             fnd = FINDING_EXTRA if (not ok and in_extra_reply_class(res)) else None
-            c = Case(dict(op='eval', tokens=tokens, world=winfo, _calls=[list(x) for x in res['calls']] if kind == 'dseq' else None), impl=impl, oracle_ok=ok,
+            c = Case(dict(op='eval', tokens=tokens, world=winfo, _calls=[list(x) for x in res['calls']] if kind in ('dseq', 'dpseq') else None), impl=impl, oracle_ok=ok,
                      oracle_msg=('' if ok else 'tokens %r under %r: %s' % (tokens, winfo, msg)), kind=kind, tags=tags, finding=fnd)
             def post(o, c=c):
                 f = o.split('\t@\t')
@@ -831,6 +835,59 @@ def explore(live, r, n_worlds, per_world, corpus=()):
                                     cse.oracle_msg += ' (the defect repaired by fix 6f88b83: an errored global enable erased the per-plugin entry)'
                                 break
                     cse.input.pop('_calls', None)
+        if per_world.get('dpseq', 0):
+            # the REAL `defaultplugin` command: set, change to another plugin without --remove, --remove, set again, query;
+            # after every step the registry values, the dispatch of the bare name and who actually runs it are checked
+            cn = live.cb.canonicalName
+            chosen = {}            # statement level: command -> plugin the owner last (successfully) made the default
+            hist = []
+            cmds = ['rone', 'both', 'nrep', 'igno', 'erro', 'rdis', 'r-one', 'xval', 'jtag', 'sile', 'nosuch', 'rbee']
+            for _ in range(per_world['dpseq']):
+                c0 = r.choice(cmds); c = cn(c0)
+                x = r.random()
+                if x < 0.2:
+                    text = 'defaultplugin --remove %s' % c0; rm = True; P = None
+                elif x < 0.3:
+                    text = 'defaultplugin %s' % c0; rm = False; P = None
+                else:
+                    P = r.choice(['VtOrderA', 'VtOrderB', 'VtOrderC', 'vtorderb', 'Misc']); rm = False
+                    text = 'defaultplugin %s %s' % (c0, P)
+                rep = live.owner_cmd(text)
+                kind = rep if rep in ('ok', 'err') else 'val'
+                hist.append([text, kind])
+                impl = '%s # %s' % (('val:' + rep[6:]) if kind == 'val' else kind, ','.join('%s=%s' % e for e in live.defaults_dump()))
+                idx = '~' if P is None else live.top.index(live.b.irc.getCallback(P))
+                if kind == 'ok':
+                    if rm: chosen.pop(c, None)
+                    elif P is not None: chosen[c] = live.b.irc.getCallback(P).name()
+                def dpost(o):
+                    f = o.split('\t')
+                    if len(f) != 2: return o
+                    ents = [] if f[1] == '-' else sorted(tuple(wire.dec(z) for z in e.split('=')) for e in f[1].split(','))
+                    head = ('val:' + wire.dec(f[0][4:])) if f[0].startswith('val:') else f[0]
+                    if head == 'val:':
+                        head = 'err'          # an empty value is shown as _makeReply's "empty message" error
+                    return '%s # %s' % (head, ','.join('%s=%s' % e for e in ents))
+                add(Case(dict(op='owner', text=text, history=[list(h) for h in hist], world=winfo), impl=impl, kind='dpseq',
+                         tags=('dpseq', 'remove' if rm else ('set' if P else 'query'), kind)), 'odefault\t%d\t%s\t%s' % (rm, wire.enc(c), idx), dpost)
+                # who runs the bare name now?
+                out, found = live.find([c])
+                add(Case(dict(op='find', args=[c], history=[list(h) for h in hist], world=winfo), impl=out, kind='dpseq', tags=('dpseq', 'find')),
+                    'find\t' + wire.enc_list([c]))
+                g = TreeGen(r)
+                tokens = g.node(0, lambda: [c])
+                add_eval(tokens, 'dpseq')
+                cse = cases[-2] if cases[-1].kind.endswith('-m') else cases[-1]
+                want = chosen.get(c)
+                if cse.oracle_ok and want is not None:
+                    cbw = live.b.irc.getCallback(want)
+                    still = c in live.methods_cached(cbw) and not live.cb.Commands._disabled.disabled(c, cbw.name())
+                    ran = [pl for (pl, cmdw, a) in (cse.input.get('_calls') or []) if cmdw == [c]]
+                    if still and ran != [want]:
+                        cse.oracle_ok = False
+                        cse.input['history'] = [list(h) for h in hist]
+                        cse.oracle_msg = 'after the owner commands %r the default plugin of %r is %s, but the bare command ran in %r' % (hist, c, want, ran)
+                cse.input.pop('_calls', None)
         if per_world.get('dseq', 0):
             # what a restart would do: rebuild the store from supybot.commands.disabled; the live store must say the same
             before = live.store_dump()
@@ -943,7 +1000,7 @@ def load_corpus():
     except OSError:
         return []
 
-QUICK = dict(full=30, mixed=60, multi=40, deep=10, feed=12, ign=6, disp=80, canon=10, dseq=8)
+QUICK = dict(full=30, mixed=60, multi=40, deep=10, feed=12, ign=6, disp=80, canon=10, dseq=8, dpseq=6)
 
 def run(ctx):
     build = leanbuild.ensure(PROPERTY, THEOREMS, thorough=ctx.thorough, extractors=['CanonicalName'])
@@ -968,7 +1025,7 @@ def run(ctx):
         import random
         rr = random.Random('%d/c14-search' % ctx.seed)
         seeds = [dict(tokens=d.input['tokens']) for d in disagreements[:50] if d.input.get('op') == 'eval']
-        more, _, _ = explore(live, rr, 30, dict(full=40, mixed=80, multi=60, deep=10, feed=15, disp=80, dseq=12), seeds)
+        more, _, _ = explore(live, rr, 30, dict(full=40, mixed=80, multi=60, deep=10, feed=15, disp=80, dseq=12, dpseq=10), seeds)
         return [c for c in more if c.oracle_ok is False]
     return verdict.conclude(PROPERTY, ctx.tier, ctx.seed, build, cases, search=search, rule=RULE, trusted_base=TRUSTED,
                             finding_status=finding_status(live),
